@@ -32,6 +32,7 @@ type World struct {
 	conc        *concState
 	ttl         *ttlState
 	onMuResume  map[int]func()                                              // see armResume
+	ghostMade   bool                                                        // the primary was created with the unmodelled column "ghost"
 	ghostLive   bool                                                        // the unmodelled column "ghost" exists on the primary right now
 	mergeYields bool                                                        // user merge functions yield to the scheduler (see mergeYield)
 	capFor      map[int]*filterCapture                                      // per thread: filter chain being captured (C04 part B)
@@ -202,6 +203,14 @@ func (w *World) onHook(c *column.Collection, latch *smutex.SMutex128, p uint8, a
 		if p == uint8(column.SimBeforeLock) && c == w.primary && w.conc != nil && w.txns[tid] != nil {
 			w.latchTaken(tid, arg)
 		}
+		if p == uint8(column.SimMidCommit1) && c == w.primary {
+			if mt := w.txns[tid]; mt != nil && mt.ghostOnly[arg] {
+				if mt.ghostAtApply == nil {
+					mt.ghostAtApply = map[uint32]bool{}
+				}
+				mt.ghostAtApply[arg] = w.ghostLive
+			}
+		}
 		if fc := w.capFor[tid]; fc != nil && fc.active && p == uint8(column.SimBeforeRLock) && c == w.primary {
 			// released: from here to the next hook the library works on this block under its read
 			// latch; what it can see of the block is the model's committed state right now
@@ -287,6 +296,14 @@ func (w *World) newCollection(logger commit.Logger) *column.Collection {
 
 func (w *World) newCollectionWith(logger commit.Logger, cols []ColSpec, idx []IndexSpec, sorts []SortSpec) *column.Collection {
 	c := column.NewCollection(column.Options{Capacity: w.cs.Cfg.Capacity, Vacuum: vacuumNever, Writer: logger})
+	if w.cs.Cfg.Params["ghost"] == 1 && logger != nil && logger == commit.Logger(w.tap) && w.conc != nil && !w.ghostMade {
+		// the unmodelled column of the primary is registered FIRST: dropping it shifts every
+		// other entry of the column registry
+		if err := c.CreateColumn("ghost", column.ForInt64()); err != nil {
+			panic(err)
+		}
+		w.ghostMade, w.ghostLive = true, true
+	}
 	for _, col := range cols {
 		if col.Name == "expire" {
 			continue
